@@ -11,9 +11,9 @@
 From Coq Require Import ZArith QArith List Arith String Bool Lia Lqa Permutation.
 From stdpp Require Import gmap.
 From RC Require Import Base.Num Base.Res Model.Units Model.StateOps Model.Traversal Model.TraversalSpec Model.Search
-  Model.SearchSpec Model.Ksp Model.Termination
-  Proofs.StateOps Proofs.TraversalWalk Proofs.Traversal Proofs.Optimal Proofs.OptimalCore Proofs.OptimalInst
-  Proofs.KspConcrete Proofs.LinkChain Proofs.LinkTraversal Proofs.LinkKsp Proofs.LinkReach.
+  Model.SearchSpec Model.SearchRun Model.Ksp Model.KspSpec Model.KspRun Model.Termination
+  Proofs.Units Proofs.StateOps Proofs.TraversalWalk Proofs.Traversal Proofs.Optimal Proofs.OptimalCore Proofs.OptimalInst
+  Proofs.KspConcrete Proofs.LinkChain Proofs.LinkTraversal Proofs.LinkKsp Proofs.LinkKspModel Proofs.LinkReach.
 Import ListNotations.
 
 Module ExN.
@@ -173,3 +173,18 @@ Proof.
   split; apply Qltb_spec; assumption.
 Qed.
 End ExT.
+
+(* the two-lane world of Props/C13.v (shortest 0>1>2>3, lanes 0>4>5>3 and 0>6>3), k = 3, EdgeIdCosine 0.9, Dijkstra: no
+   turn tables, so it is in the class of LinkKspModel; the run returns three routes *)
+Module ExK.
+Import Search SR KR Ksp.
+Definition w : world QN :=
+  mkW QN 7 [(0,1);(1,2);(2,3);(0,4);(4,5);(5,3);(0,6);(6,3)] [1; 3#2; 5#4; 2; 5#2; 9#4; 8; 19#2]%Q [] [] [] [] [] [] TUnlimited 0%Q.
+Definition q : kq QN := mkKQ QN KSingleVia (ADijkstra QN) None 3 QKAbsent KExact (SEdgeIdCosine (9#10)%Q) 0 (Some 3).
+Lemma in_class : w_turn QN w = [] /\ w_fturn QN w = [] /\ kq_alg QN q = KSingleVia /\ kq_under QN q = ADijkstra QN
+    /\ kq_wf QN q = None /\ ksp_query_k (kq_k QN q) (kq_qk QN q) = Ok 3.
+Proof. repeat split. Qed.
+Lemma l2_run : exists r, KR.run QN cos_ge_Q 300 w q = Ok r
+    /\ map (map (et_edge (C:=Q) (St:=Q))) (r_routes r) = [[0;1;2]; [3;4;5]; [6;7]].
+Proof. eexists. split; vm_compute; reflexivity. Qed.
+End ExK.
